@@ -421,3 +421,6 @@ for _p, _ss in (("C01", [CH_DYN]), ("C02", [G_DYN, CH_DYN]), ("C03", [CH_DYN]), 
                 ("C06", [CH_DYN, G_DYN_ENF]), ("C08", [G_DYN, CH_DYN, G_DYN_ENF]), ("C18", [G_DYN, CH_DYN]),
                 ("C19", [G_DYN_CL])):
     PROPS[_p]["streams"] = PROPS[_p]["streams"] + _ss
+PLAN_DYN = {"profile": "plan", "opts": dict(world.PLAN_OPTS, p_batch_loader=1.0)}
+for _p in ("C05", "C10", "C18"):
+    PROPS[_p]["streams"] = PROPS[_p]["streams"] + [PLAN_DYN]
